@@ -1274,7 +1274,13 @@ func ruleKEY11(c *Ctx) []Ob {
 				return
 			}
 			n++
-			o.add(VIOLATED, c.fname(fn)+"/time key from UnixNano", relPath(c, call.Pos()), "the key of a time is uint64(t.UnixNano()): UnixNano overflows int64 after 2262 and the uint64 wraps after 2554-07-21, so the key of 2600-01-01 sorts before the key of 2020-01-01 while Compare orders them correctly - an index range scan and the filter disagree for such times (Count(f > 2020) is 1 without the index, 0 with it)")
+			// keyed by an ordinal among the sites (functions in name order), not by the function's name: the same
+			// computation moved into a helper is the same construct
+			ckey := "index keys/time key from UnixNano"
+			if n > 1 {
+				ckey += fmt.Sprintf(" #%d", n)
+			}
+			o.add(VIOLATED, ckey, relPath(c, call.Pos()), "the key of a time is uint64(t.UnixNano()): UnixNano overflows int64 after 2262 and the uint64 wraps after 2554-07-21, so the key of 2600-01-01 sorts before the key of 2020-01-01 while Compare orders them correctly - an index range scan and the filter disagree for such times (Count(f > 2020) is 1 without the index, 0 with it)")
 		})
 	}
 	if n == 0 {
